@@ -637,7 +637,21 @@ impl Norm {
     fn lower_iter(&mut self, it: &Iter, pre: &mut Vec<Stmt>) -> Option<(Ident, Expr, Expr, Expr, String)> {
         let mut ads = it.adapters.clone();
         if let Src::Chunks { base, size, exact } = &it.src {
-            let base = self.bind_simple(base.clone(), "src", pre);
+            // `x[a..b].chunks(n)`: the sub-slice as a value first (N21)
+            let base: Expr = match strip_paren(base) {
+                Expr::Index(ix) if matches!(strip_paren(&ix.index), Expr::Range(_)) => {
+                    let Expr::Range(rg) = strip_paren(&ix.index) else { unreachable!() };
+                    if !matches!(rg.limits, syn::RangeLimits::HalfOpen(_)) { return None; }
+                    let b = &ix.expr;
+                    let lo: Expr = rg.start.as_ref().map(|b| (**b).clone()).unwrap_or_else(|| parse_quote!(0));
+                    let hi: Expr = rg.end.as_ref().map(|b| (**b).clone()).unwrap_or_else(|| parse_quote!(#b.len()));
+                    let rb = ref_of(b);
+                    self.rules.push(RuleApp { rule: "N21".into(), line: 0, note: "x[a..b].chunks(n) -> chunks of vsub(&x, a, b)".into() });
+                    parse_quote!(vsub(#rb, #lo, #hi))
+                }
+                _ => base.clone(),
+            };
+            let base = self.bind_simple(base, "src", pre);
             let size = self.bind_simple(size.clone(), "csz", pre);
             let idx = self.fresh("i");
             let cnt = self.fresh("nchunks");
@@ -829,10 +843,20 @@ impl Norm {
         }
         let mut hr = HasReturn(false);
         hr.visit_expr(&c.body);
-        if hr.0 {
+        // inside `.map(f).collect::<Result<Vec<_>,_>>()?` a `?` in f propagates the same Err the enclosing `?` would return (std: collect
+        // stops at the first Err, which the outer `?` returns), so it may stay a function-level `?` once f is inlined; `return` may not
+        struct OnlyReturn(bool);
+        impl<'a> Visit<'a> for OnlyReturn {
+            fn visit_expr_return(&mut self, _: &'a syn::ExprReturn) { self.0 = true; }
+            fn visit_expr_closure(&mut self, _: &'a syn::ExprClosure) {}
+        }
+        let mut orr = OnlyReturn(false);
+        orr.visit_expr(&c.body);
+        if hr.0 && !(self.collect_as_result && !orr.0) {
             self.errors.push("closure with return/? cannot be inlined".into());
             return None;
         }
+        if hr.0 { self.rules.push(RuleApp { rule: "N5".into(), line: c.span().start().line, note: "`?` inside the mapped closure of collect::<Result<..>>()? kept as a function-level `?` (same Err propagates)".into() }); }
         let pat = c.inputs[0].clone();
         match &*c.body {
             Expr::Block(b) if b.label.is_none() => {
@@ -1780,6 +1804,16 @@ impl<'a> VisitMut for Rewriter<'a> {
                                 let pat = &c.inputs[0]; let body = &c.body; let r = &m.receiver;
                                 self.n.rule("N8", sp, "Result .and_then(closure) -> match (std definition)");
                                 replacement = Some(parse_quote!(match #r { Ok(__v) => { let #pat = __v; #body }, Err(__e) => Err(__e) }));
+                            }
+                        }
+                    }
+                    ("filter", 1) if parse_iter(&m.receiver, false).is_none() && self.n.map_kind.as_deref() == Some("option") => {
+                        // N8f: Option::filter(p) (std definition): Some(v) if p(&v), otherwise None
+                        if let Expr::Closure(c) = strip_paren(&m.args[0]) {
+                            if c.inputs.len() == 1 {
+                                let pat = &c.inputs[0]; let body = &c.body; let r = &m.receiver;
+                                self.n.rule("N8", sp, "Option .filter(closure) -> match (std definition)");
+                                replacement = Some(parse_quote!(match #r { Some(__v) => if { let #pat = &__v; #body } { Some(__v) } else { None }, None => None }));
                             }
                         }
                     }
